@@ -772,4 +772,74 @@ theorem relQuery_eq_rfc (b : URL) (base r : Ref) (hr : RelRef r) (hbq : base.que
   · simp only [h1, if_false]
     exact dropEmpty_optOfStr_getD r.query
 
+/-! ### the fuel of the RFC loop does not matter once it covers the input -/
+
+theorem dropWhile_length_le (l : Str) : (l.dropWhile ns).length ≤ l.length := by
+  induction l with
+  | nil => simp
+  | cons c cs ih => simp only [List.dropWhile]; split <;> simp <;> omega
+
+theorem firstSeg_rest_lt (inp : Str) (h : inp ≠ []) : (firstSeg inp).2.length < inp.length := by
+  cases inp with
+  | nil => exact absurd rfl h
+  | cons c r =>
+    by_cases hc : c = '/'
+    · subst hc
+      simp only [firstSeg, List.length_cons]
+      have := dropWhile_length_le r
+      omega
+    · have : firstSeg (c :: r) = ((c :: r).takeWhile ns, (c :: r).dropWhile ns) := by
+        unfold firstSeg
+        split
+        · rename_i heq; simp at heq; exact absurd heq.1 hc
+        · rfl
+      rw [this]
+      simp only [List.dropWhile, ns_of c hc, List.length_cons]
+      have := dropWhile_length_le r
+      omega
+
+/-- one iteration of the loop of 5.2.4 step 2, continuing with fuel `k` -/
+def rdsStep (k : Nat) (inp out : Str) : Str :=
+  match inp with
+  | '.' :: '.' :: '/' :: r => rds k r out
+  | '.' :: '/' :: r => rds k r out
+  | '/' :: '.' :: '/' :: r => rds k ('/' :: r) out
+  | ['/', '.'] => rds k ['/'] out
+  | '/' :: '.' :: '.' :: '/' :: r => rds k ('/' :: r) (popSeg out)
+  | ['/', '.', '.'] => rds k ['/'] (popSeg out)
+  | ['.'] => rds k [] out
+  | ['.', '.'] => rds k [] out
+  | _ => rds k (firstSeg inp).2 (out ++ (firstSeg inp).1)
+
+theorem rds_succ (k : Nat) (inp out : Str) (h : inp ≠ []) : rds (k+1) inp out = rdsStep k inp out := by
+  cases inp with
+  | nil => exact absurd rfl h
+  | cons c cs =>
+    unfold rdsStep
+    rw [rds.eq_def]
+    simp only
+    rfl
+
+theorem rds_fuel (n : Nat) : ∀ (inp out : Str) (m : Nat), inp.length ≤ n → inp.length ≤ m →
+    rds n inp out = rds m inp out := by
+  induction n with
+  | zero =>
+    intro inp out m hn _
+    have : inp = [] := by cases inp <;> simp_all
+    subst this; simp [rds_nil]
+  | succ n ih =>
+    intro inp out m hn hm
+    cases m with
+    | zero =>
+      have : inp = [] := by cases inp <;> simp_all
+      subst this; simp [rds_nil]
+    | succ m =>
+      by_cases he : inp = []
+      · subst he; simp [rds_nil]
+      · have hfs := firstSeg_rest_lt inp he
+        rw [rds_succ n inp out he, rds_succ m inp out he]
+        unfold rdsStep
+        split
+        all_goals ((try simp only [List.length_cons, List.length_nil] at hn hm hfs); apply ih <;> (try simp only [List.length_cons, List.length_nil]) <;> omega)
+
 end C07
